@@ -35,6 +35,13 @@ CHECKS = {
               "Tied to the code by ~6k-10k boundary ops over all nine operations with byte diffs of both regions and the application arena. "
               "Four genuine defects were found by this check and repaired (fix: commits bd117b1, 2d57aba, 8abe039, 66ca6e3)."),
         note=NOTE + "For application-side ranges 'outside' is judged per 2^16-aligned block (what a mask-based backend can tell)."),
+    "C17": dict(
+        engine="index", design_ref="DESIGN.md §6 C17",
+        technique="Lean 4 theorems over all index types and values (finite case split on widths + omega) + differential execution + direct oracle",
+        text=("Proof: C17_checked (the check accepts exactly 0 <= v < n for every non-bool integer index type and every value, no aliasing after truncation), "
+              "C17_designates (element v, wholly inside the array), C17_aborts, C17_multi (row-major designation for multi-dimensional arrays). Tied to the code by ~33k ops: "
+              "application- and sandbox-memory arrays, 3 element types, lengths 1..16, 14 index types, plain/tainted/tainted_volatile indices, boundary and aliasing values, 2-D/3-D shapes, canaries."),
+        note=NOTE + "bool index types do not compile and are excluded."),
 }
 
 TODO_REASON = "check not built yet in this round (design in DESIGN.md §6); will be claimed when its theorems and correspondence check exist"
